@@ -16,7 +16,8 @@
 (* the TLA+ reference encoders (EncodeRecord) - e.g. a GREASE ECH          *)
 (* extension with a 1..5 byte payload - to be fingerprinted by the library.*)
 (* Mode "cfg": the grid of Config variations; mode "sweep": server names   *)
-(* of every length 1..260 (padding boundaries).                            *)
+(* of every length 1..260 (padding boundaries); mode "var": edits of a     *)
+(* built hello followed by a second marshal, HelloRetryRequest variations. *)
 (*                                                                         *)
 (* Model-level invariants (consistency of the two halves of TLSWire and of *)
 (* ExtCodec): every shape is InLimits; every reference-encoded descriptor  *)
@@ -179,11 +180,26 @@ Caps == [i \in DOMAIN Boundary |-> [name |-> <<"base+", Boundary[i].type, i>>, v
            [name |-> <<"tls10-style">>, vers |-> 769, sid |-> <<>>, suites |-> <<47, 53, 10>>, comp |-> <<0>>, exts |-> <<BaseExts[1]>>, hasExts |-> TRUE] >>
 CapMsg(c) == EncodeHello(c.vers, c.sid, c.suites, c.comp, c.exts, c.hasExts)
 
+\* ---------- mode "var": what happens to a built hello afterwards ----------
+\* edit: BuildHandshakeState, then the edit, then MarshalClientHello and Handshake (every Raw is judged);
+\* hrr:  a real handshake with a server that only accepts `group` (HelloRetryRequest when the hello carries no share
+\*       for it), with a cookie of `cookie` bytes in the HelloRetryRequest (0 = none); both wire hellos are judged.
+V(kind, op, name, group, cookie) == [kind |-> kind, op |-> op, name |-> name, group |-> group, cookie |-> cookie]
+Variations == <<
+  V("edit", "sni", <<97, 46, 105, 111>>, 0, 0),                                   \* a shorter name: everything behind server_name moves up
+  V("edit", "sni", XRep(40, 115) \o <<46>> \o EXAMPLE, 0, 0),                     \* a longer name
+  V("edit", "sni", <<49, 48, 46, 48, 46, 48, 46, 49>>, 0, 0),                     \* an IP literal: server_name disappears
+  V("edit", "sni-remove", <<>>, 0, 0),
+  V("edit", "add-ext", <<1, 2, 3, 4, 5>>, 0, 0), V("edit", "add-ext", <<>>, 0, 0),
+  V("edit", "del-ext", <<>>, 0, 0), V("edit", "random", <<>>, 0, 0),
+  V("hrr", "", <<>>, 24, 0), V("hrr", "", <<>>, 24, 1), V("hrr", "", <<>>, 24, 32), V("hrr", "", <<>>, 24, 255),
+  V("hrr", "", <<>>, 23, 0), V("hrr", "", <<>>, 23, 7), V("hrr", "", <<>>, 25, 0), V("hrr", "", <<>>, 25, 64) >>
+
 \* ---------- the three grids ----------
 vars == <<sel, cfg, cap>>
 Init == /\ sel = <<>>
         /\ IF Mode = "cfg" THEN CfgInit ELSE IF Mode = "sweep" THEN SweepInit ELSE cfg = 0
-        /\ IF Mode = "cap" THEN cap \in DOMAIN Caps ELSE cap = 0
+        /\ IF Mode = "cap" THEN cap \in DOMAIN Caps ELSE IF Mode = "var" THEN cap \in DOMAIN Variations ELSE cap = 0
 Next == /\ Mode = "sel" /\ MayExtend(sel)
         /\ \E k \in (1..NK) \ SelKinds(sel) : \E s \in ShapeChoices(sel, k) : Keep(Append(sel, <<k, s>>)) /\ sel' = Append(sel, <<k, s>>)
         /\ UNCHANGED <<cfg, cap>>
@@ -191,6 +207,7 @@ Next == /\ Mode = "sel" /\ MayExtend(sel)
 Emit == CASE Mode = "sel" -> (Keep(sel) /\ sel # <<>> /\ (AllShapes \/ Len(sel) >= 3)) => PrintT(<<"SEL", ToJson([exts |-> Descs(sel), min |-> VersOf(sel)[1], max |-> VersOf(sel)[2],
                                                                           suites |-> SuitesDefault, comp |-> <<0>>, h |-> Hash(sel)])>>)
           [] Mode \in {"cfg", "sweep"} -> PrintT(<<"CFG", ToJson(cfg)>>)
+          [] Mode = "var" -> PrintT(<<"VAR", ToJson([i |-> cap, v |-> Variations[cap]])>>)
           [] Mode = "cap" -> PrintT(<<"CAP", ToJson([name |-> Caps[cap].name, raw |-> EncodeRecord(CapMsg(Caps[cap]))])>>)
 
 \* ---------- model-level invariants ----------
